@@ -120,7 +120,9 @@ class _DictKeyAndValue:
         else:
             self.key = obj
         if hasattr(self, "key") and hasattr(self, "value"):
-            self.dict[self.key] = self.value
+            # An unresolved key will be set again once it is known.
+            if not isinstance(self.key, NotKnown):
+                self.dict[self.key] = self.value
 
 
 class _Dereference(NotKnown):
